@@ -106,6 +106,17 @@ class ModGen:
         if r < 0.50:
             big = self.some_sig(w, exact=False)
             bw = next(s["w"] for s in self.sigs if s["n"] == big)
+            if o.get("slices", True) and self.rng.random() < 0.3:
+                # a run of bits taken out of a strided / reversed slice of the signal: bus[::2][1:3], bus[5:0:-2][0:2]  (seed C01-r8-1)
+                st = self.rng.choice([2, 3, -1, -2])
+                m = w + self.rng.randint(1, 2)  # never the whole of the strided slice: that one the exporter refuses (a stepped slice of a Signal)
+                span = (m - 1) * abs(st) + 1
+                if span <= bw:
+                    off = self.rng.randint(0, bw - span)
+                    inner = ({"s": off, "e": off + span, "st": st} if st > 0 else
+                             {"s": off + span - 1, "e": (off - 1 if off > 0 else None), "st": st})
+                    b = self.rng.randint(0, m - w)
+                    return {"k": "slice", "p": {"k": "slice", "p": {"k": "sig", "n": big}, "i": inner}, "i": {"s": b, "e": b + w, "st": None}}
             a = self.rng.randint(0, bw - w)
             if w == 1 and self.rng.random() < 0.5:
                 return {"k": "slice", "p": {"k": "sig", "n": big}, "i": {"i": self.rng.choice([a, a - bw])}}
